@@ -342,7 +342,7 @@ Section TorchTheorems.
       destruct (oz_is (m_decl (st_model S1)) t); [discriminate|]. cbn [negb orb] in H.
       destruct (supported smin smax (st_model S1) t).
       + destruct (cause_of (st_model S1) t) as [c|] eqn:Ec.
-        * destruct (native2_cause_before_visit_unchanged own refuse minchk adapt smin smax fuel _ _ c Ec (Hcause c Ec)) as (e0 & E & Hk).
+        * destruct (native2_cause_before_visit_unchanged own refuse minchk adapt smin smax fuel _ _ c Ec (Hcause c eq_refl)) as (e0 & E & Hk).
           rewrite E in H. inversion H; subst. split; [destruct S1; reflexivity|]. split; [reflexivity|].
           destruct c; auto; contradiction.
         * exfalso.
